@@ -36,6 +36,8 @@
 EXTENDS IsolationSem, Json
 
 CONSTANTS MaxBr, MaxN, BufSizes, Templates,
+          FillBr, FillTemplates,     \* longer branch lists over fewer templates for the fill-driven Split and Zip
+
           CopyMode      \* "deep" (the code), "shallow" / "none": what if the copies were weaker
 
 RECURSIVE Seqs(_)
@@ -56,9 +58,13 @@ vars == <<brs, N, bs, drv, rq, M, src, pos, orig, active, ind, bst, out, phase>>
 scen == <<brs, N, bs, drv, rq>>
 
 InitBst(bb) == [j \in 1..Len(bb) |-> [stored |-> <<>>, nf |-> 0, runcount |-> 0, done |-> FALSE]]
-Init == /\ brs \in Seqs(MaxBr) /\ N \in 0..MaxN /\ bs \in BufSizes
+RECURSIVE FillSeqs(_)
+FillSeqs(n) == IF n = 0 THEN {<<>>}
+               ELSE LET Pr == FillSeqs(n - 1) IN
+                    Pr \cup {Append(p, a) : p \in {x \in Pr : Len(x) = n - 1}, a \in FillTemplates}
+Init == /\ brs \in Seqs(MaxBr) \cup FillSeqs(FillBr) /\ N \in 0..MaxN /\ bs \in BufSizes
         /\ drv \in {"run", "fill", "fillreq", "zip"} /\ rq \in {0, 1}
-        /\ (drv = "run" => rq = 0)
+        /\ (drv = "run" => rq = 0 /\ brs \in Seqs(MaxBr))
         /\ (drv \in {"fill", "zip"} => /\ rq = 0 /\ bs = 1 /\ brs # <<>>
                                        /\ \A j \in 1..Len(brs) : IsFC(brs[j]) /\ brs[j].stop = None)
         /\ (drv = "zip" => \A j \in 1..Len(brs) : brs[j].end = brs[1].end /\ brs[j].stop = None)
@@ -73,9 +79,13 @@ Entry(h, b, v) == [b |-> b, r |-> v, x |-> SnapVal(h, v)]
 Entries(h, b, vs) == [j \in 1..Len(vs) |-> Entry(h, b, vs[j])]
 
 \* which buffer a branch gets
+\* CopyMode = "eqlast": what if Split._fill recognised the last branch by == (structural equality of
+\* lena sequences and elements) instead of by position
 NeedsCopy == /\ CopyMode # "none"
              /\ CASE drv = "run" -> ind < Len(active)               \* n_of_active_seqs - ind > 1
-                  [] drv \in {"fill", "fillreq"} -> active[ind] < Len(brs)   \* self._seqs[:-1]
+                  [] drv \in {"fill", "fillreq"} ->
+                       IF CopyMode = "eqlast" THEN brs[active[ind]] # brs[Len(brs)]
+                       ELSE active[ind] < Len(brs)                   \* self._seqs[:-1]
                   [] drv = "zip" -> TRUE
 
 \* a Sequence over one buffer: every value through the mutators, Count.run marks the last one
@@ -119,7 +129,7 @@ BranchSrc ==
   /\ active' = RemoveAt(active, ind) /\ UNCHANGED <<pos, orig, ind, bst, phase>>
 
 Buffer == IF ~NeedsCopy THEN [M |-> M, vs |-> orig]
-          ELSE IF CopyMode = "deep" THEN DeepCopyAll(M, orig) ELSE ShallowCopyAll(M, orig)
+          ELSE IF CopyMode \in {"deep", "eqlast"} THEN DeepCopyAll(M, orig) ELSE ShallowCopyAll(M, orig)
 
 BranchSeq ==
   /\ phase = "branches" /\ ind <= Len(active) /\ brs[active[ind]].end = "seq" /\ Fixed
@@ -215,5 +225,18 @@ OnlyLastSeesSource == (CopyMode = "deep" /\ drv # "zip") =>
 ZipNeverSeesSource == drv = "zip" => \A b \in 1..Len(brs) : Held(b) \cap SrcObjs = {}
 
 Expected == [b \in 1..Len(brs) |-> Alone(brs[b], Flow(N), bs)]
-Emitted == Done => PrintT(ToJson([brs |-> brs, N |-> N, bs |-> bs, drv |-> drv, rq |-> rq, exp |-> Expected]))
+\* the flow values as the caller holds them afterwards (the last branch works on them: documented)
+SrcAfter == [j \in 1..Len(src) |-> SnapVal(M.h, src[j])]
+\* the producer's values are changed by nobody but the branch that is given the original
+\* (at most one branch, its mutators applied once; the keys written by Count elements aside); Zip leaves them alone
+StripC(c) == [k \in (DOMAIN c) \ {"cnt", "c1"} |-> c[k]]
+SourceByLastOnly == (Done /\ CopyMode = "deep") => \A j \in 1..Len(src) :
+   LET a == SnapVal(M.h, src[j]) IN
+   \/ a = X(j)
+   \/ /\ drv # "zip"
+      /\ \E b \in 1..Len(brs) : /\ brs[b].end # "src"
+                                /\ LET y == PApplyAll(X(j), brs[b].muts) IN
+                                   StripC(a.c) = StripC(y.c) /\ a.d \in {X(j).d, y.d}
+Emitted == Done => PrintT(ToJson([brs |-> brs, N |-> N, bs |-> bs, drv |-> drv, rq |-> rq, exp |-> Expected,
+                                  src |-> SrcAfter]))
 =============================================================================
